@@ -313,3 +313,151 @@ Proof.
     assert (A : Z.abs (m * sgn (ldy l)) = m) by (unfold sgn; destruct (0 <=? ldy l); lia).
     rewrite A. repeat split; lia.
 Qed.
+
+(* ---- frame-free forms: cross and dot product with the direction vector --- *)
+Definition cross_to (l : line) (p : point) : Z :=
+  (px p - px (l_start l)) * ldy l - (py p - py (l_start l)) * ldx l.
+Definition dot_to (l : line) (p : point) : Z :=
+  (px p - px (l_start l)) * ldx l + (py p - py (l_start l)) * ldy l.
+
+(* in every octant  cross = +-(m*dmaj - k*dmin)  and  dot = k*dmaj + m*dmin *)
+Lemma frame_cross_dot l k m :
+  let p := fpt (l_start l) (lsmaj l) (lsmin l) k m in
+  Z.abs (cross_to l p) = Z.abs (m * ldmaj l - k * ldmin l) /\
+  dot_to l p = k * ldmaj l + m * ldmin l.
+Proof.
+  destruct l as [[sx sy] [ex ey]]. unfold cross_to, dot_to. unfl.
+  set (dx := ex - sx). set (dy := ey - sy).
+  destruct (Z.abs dx <=? Z.abs dy) eqn:T; destruct (0 <=? dx) eqn:X; destruct (0 <=? dy) eqn:Y; cbn [px py].
+  all: try (rewrite Z.max_r, Z.min_l by lia); try (rewrite Z.max_l, Z.min_r by lia).
+  all: try (rewrite (Z.abs_eq dx) by lia); try (rewrite (Z.abs_neq dx) by lia).
+  all: try (rewrite (Z.abs_eq dy) by lia); try (rewrite (Z.abs_neq dy) by lia).
+  all: split; [|ring].
+  all: match goal with |- Z.abs ?a = Z.abs ?b =>
+         (replace a with b by ring; reflexivity) || (replace a with (- b) by ring; apply Z.abs_opp) end.
+Qed.
+
+(* distance to the ideal line, measured along the minor axis, is |cross| / dmaj <= 1/2 *)
+Lemma line_cross_half l i p :
+  nth_error (line_points l) i = Some p ->
+  2 * Z.abs (cross_to l p) <= Z.max (Z.abs (ldx l)) (Z.abs (ldy l)).
+Proof.
+  intros Hp. apply nth_line_points in Hp. destruct Hp as [_ ->].
+  pose proof (ldm_ok l) as Hd. unfold line_pt.
+  destruct (frame_cross_dot l (Z.of_nat i) (Mk (ldmaj l) (ldmin l) (Z.of_nat i))) as [-> _].
+  apply (Mk_half _ _ (Z.of_nat i) Hd). lia.
+Qed.
+
+(* Euclidean distance to the ideal line: dist^2 = cross^2 / (dx^2 + dy^2) <= 1/4 *)
+Lemma line_euclid_half l i p :
+  nth_error (line_points l) i = Some p ->
+  4 * (cross_to l p * cross_to l p) <= ldx l * ldx l + ldy l * ldy l.
+Proof.
+  intros Hp. pose proof (line_cross_half l i p Hp) as H.
+  set (c := cross_to l p) in *. clearbody c.
+  set (dx := ldx l) in *. set (dy := ldy l) in *. clearbody dx dy.
+  assert (A : 4 * (c * c) <= Z.max (Z.abs dx) (Z.abs dy) * Z.max (Z.abs dx) (Z.abs dy)) by nia.
+  assert (B : Z.max (Z.abs dx) (Z.abs dy) * Z.max (Z.abs dx) (Z.abs dy) <= dx * dx + dy * dy) by nia.
+  lia.
+Qed.
+
+(* the foot of the perpendicular lies on the segment: 0 <= (p - start).(end - start) <= |end - start|^2 *)
+Lemma line_within_ends l i p :
+  nth_error (line_points l) i = Some p ->
+  0 <= dot_to l p <= ldx l * ldx l + ldy l * ldy l.
+Proof.
+  intros Hp. apply nth_line_points in Hp. destruct Hp as [Hi ->].
+  pose proof (ldm_ok l) as Hd. unfold line_pt.
+  destruct (frame_cross_dot l (Z.of_nat i) (Mk (ldmaj l) (ldmin l) (Z.of_nat i))) as [_ ->].
+  pose proof (Mk_range _ _ Hd (Z.of_nat i) ltac:(lia)) as R.
+  pose proof (Mk_mono _ _ Hd (Z.of_nat i) (ldmaj l) ltac:(lia)) as M. rewrite Mk_end in M by assumption.
+  set (m := Mk _ _ _) in *. clearbody m. set (k := Z.of_nat i) in *. assert (0 <= k) by lia. clearbody k.
+  assert (E : ldx l * ldx l + ldy l * ldy l = ldmaj l * ldmaj l + ldmin l * ldmin l) by (unfl; nia).
+  rewrite E. set (a := ldmaj l) in *. set (b := ldmin l) in *. clearbody a b. split; nia.
+Qed.
+
+(* each coordinate is monotone, in the direction of the end point *)
+Lemma line_monotone l i j p q :
+  (i <= j)%nat -> nth_error (line_points l) i = Some p -> nth_error (line_points l) j = Some q ->
+  0 <= sgn (ldx l) * (px q - px p) /\ 0 <= sgn (ldy l) * (py q - py p).
+Proof.
+  intros Hij Hp Hq. apply nth_line_points in Hp, Hq. destruct Hp as [_ ->], Hq as [_ ->].
+  pose proof (ldm_ok l) as Hd.
+  pose proof (Mk_mono _ _ Hd (Z.of_nat i) (Z.of_nat j) ltac:(lia)) as M.
+  unfold line_pt. set (m := Mk _ _ (Z.of_nat i)) in *. set (m' := Mk _ _ (Z.of_nat j)) in *.
+  clearbody m m'. assert (K : Z.of_nat i <= Z.of_nat j) by lia.
+  set (k := Z.of_nat i) in *. set (k' := Z.of_nat j) in *. clearbody k k'.
+  unfold fpt, lsmaj, lsmin, sgn.
+  destruct (y_major l); destruct (0 <=? ldx l); destruct (0 <=? ldy l); cbn [px py]; lia.
+Qed.
+
+(* ---- translation equivariance --------------------------------------------- *)
+Lemma bresenham_run_translate p d n : forall q e,
+  bresenham_run p (BS (padd q d) e) n = map (fun r => padd r d) (bresenham_run p (BS q e) n).
+Proof.
+  induction n as [|n IH]; intros q e; [reflexivity|].
+  cbn [bresenham_run]. unfold bnext. cbn [b_point b_error].
+  assert (C : forall a b, padd (padd a d) b = padd (padd a b) d)
+    by (intros; unfold padd; cbn [px py]; f_equal; lia).
+  destruct (error_threshold p <? e); cbn [b_point b_error map]; rewrite ?C, IH; reflexivity.
+Qed.
+
+Lemma line_points_translate l d :
+  line_points (translate_line l d) = map (fun p => padd p d) (line_points l).
+Proof.
+  unfold line_points.
+  assert (D : psub (l_end (translate_line l d)) (l_start (translate_line l d)) = psub (l_end l) (l_start l))
+    by (unfold translate_line, psub, padd; cbn [l_start l_end px py]; f_equal; lia).
+  assert (B : bparams_new (translate_line l d) = bparams_new l) by (unfold bparams_new; rewrite D; reflexivity).
+  assert (M : major_length (translate_line l d) = major_length l) by (unfold major_length; rewrite D; reflexivity).
+  rewrite B, M. cbn [translate_line l_start]. apply bresenham_run_translate.
+Qed.
+
+(* ---- no i32 overflow within line_ok ---------------------------------------- *)
+(* the states before each call of next, and after the last *)
+Fixpoint bstates (p : bparams) (s : bstate) (n : nat) : list bstate :=
+  match n with
+  | O => [s]
+  | Datatypes.S k => s :: bstates p (snd (bnext p s)) k
+  end.
+(* the value of `error` between the threshold test and the major step of Bresenham::next *)
+Definition err_after_test (p : bparams) (s : bstate) : Z :=
+  if error_threshold p <? b_error s then b_error s - error_step_minor p else b_error s.
+
+Lemma bnext_error p s : b_error (snd (bnext p s)) = err_after_test p s + error_step_major p.
+Proof. unfold bnext, err_after_test. destruct (error_threshold p <? b_error s); reflexivity. Qed.
+
+Lemma bstates_error_bound dmaj dmin a b n : forall s st,
+  0 <= dmin <= dmaj -> - dmaj <= b_error s <= dmaj + 2 * dmin ->
+  In st (bstates (BP dmaj (2 * dmin) (2 * dmaj) a b) s n) ->
+  - dmaj <= b_error st <= 3 * dmaj /\
+  - dmaj <= err_after_test (BP dmaj (2 * dmin) (2 * dmaj) a b) st <= dmaj.
+Proof.
+  induction n as [|n IH]; intros s st Hd Hs; cbn [bstates In].
+  - intros [<-|[]]. unfold err_after_test. cbn [error_threshold error_step_minor].
+    destruct (dmaj <? b_error s) eqn:T; lia.
+  - intros [<-|H].
+    + unfold err_after_test. cbn [error_threshold error_step_minor]. destruct (dmaj <? b_error s) eqn:T; lia.
+    + apply IH in H; [assumption | assumption |]. rewrite bnext_error.
+      unfold err_after_test. cbn [error_threshold error_step_minor error_step_major].
+      destruct (dmaj <? b_error s) eqn:T; lia.
+Qed.
+
+Definition i32 (x : Z) : Prop := -2147483648 <= x <= 2147483647.
+
+(* every intermediate value of Points::new / Bresenham::next fits an i32 *)
+Lemma line_no_overflow l st :
+  line_ok l ->
+  In st (bstates (bparams_new l) (BS (l_start l) 0) (Z.to_nat (major_length l))) ->
+  let p := bparams_new l in
+  i32 (ldx l) /\ i32 (ldy l) /\ i32 (error_threshold p) /\ i32 (error_step_major p) /\ i32 (error_step_minor p) /\
+  0 <= major_length l <= 4294967295 /\
+  i32 (b_error st) /\ i32 (err_after_test p st).
+Proof.
+  intros [[A1 A2] [A3 A4]] H. cbv zeta. rewrite bparams_new_frame in *.
+  pose proof (ldm_ok l) as Hd.
+  apply bstates_error_bound in H; [| assumption | cbn [b_error]; lia].
+  rewrite major_length_frame. cbn [error_threshold error_step_major error_step_minor].
+  assert (ldmaj l <= 2 * lbound) by (unfl; unfold lbound, lpoint_ok in *; lia).
+  unfold i32, lbound, lpoint_ok, ldx, ldy in *. lia.
+Qed.
